@@ -173,7 +173,7 @@ func withCap(m []byte, bs, mode int) []byte {
 		b := make([]byte, len(m)+1)
 		copy(b, m)
 		b[len(m)] = 0xEE
-		return b[:len(m):len(m)+1]
+		return b[: len(m) : len(m)+1]
 	default:
 		b := make([]byte, len(m)+2*bs+7)
 		copy(b, m)
@@ -187,8 +187,7 @@ func withCap(m []byte, bs, mode int) []byte {
 // checkUnpad compares the library's Unpad on s with the reference relation. kind is a short label of how s was
 // produced (for the detail text only). Returns "accept"/"reject"/"panic".
 func checkUnpad(t *engine.T, sc scheme, bs int, p padding.Padding, s []byte, kind string, panicSeen *bool) string {
-	in := append([]byte{}, s...) // exact capacity copy: Unpad must not rely on bytes beyond len
-	in = in[:len(in):len(in)]
+	in := exactCopy(s) // exact capacity copy: Unpad must not rely on bytes beyond len
 	r := safeUnpad(p, in)
 	if r.panicked {
 		if !*panicSeen { // report (and capture the frame) once per case; later panics of the same case are only counted
@@ -253,6 +252,20 @@ func m3DataLen(bs, n int) int {
 		n++
 	}
 	return n
+}
+
+// exactCopy returns a copy of s in a buffer with cap == len (one reusable buffer per length; the worker is
+// single-threaded and every result is consumed before the next call).
+var exactBufs = map[int][]byte{}
+
+func exactCopy(s []byte) []byte {
+	b, ok := exactBufs[len(s)]
+	if !ok {
+		b = make([]byte, len(s))
+		exactBufs[len(s)] = b
+	}
+	copy(b, s)
+	return b[:len(s):len(s)]
 }
 
 func allZero(b []byte) bool {
